@@ -12,3 +12,13 @@ extern "C" void step_queued2()   { body_queued2(ck0, ck1, ck2, ck3); }          
 extern "C" void step_order_update() { body_order_update((unsigned) ck0); }
 extern "C" void step_order_react()  { body_order_react((unsigned) ck0); }
 extern "C" void step_order_query()  { body_order_query((unsigned) ck0); }
+extern "C" void step_substitute()         { body_substitute((unsigned) ck0, ck1, ck2, ck3, ck4); }   // configuration, dest, guard state, entry(1)/exit(0) guard, substitute dest
+extern "C" void step_substitute_forever() { body_substitute_forever((unsigned) ck0, ck1, ck2, ck3); }
+extern "C" void step_queued3()            { body_queued3(ck0, ck1, ck2); }
+#ifdef HFSM2_ENABLE_SERIALIZATION
+extern "C" void step_save_load() { body_save_load(ck0, ck1); }                              // source configuration, destination configuration (-1 = not activated)
+#endif
+#ifdef HFSM2_ENABLE_TRANSITION_HISTORY
+extern "C" void step_history_replay() { body_history_replay(ck0, ck1); }                    // kind, destination
+extern "C" void proof_history_enter() { body_history_enter(); }
+#endif
